@@ -11,7 +11,6 @@ import sys
 
 from . import common
 
-sys.setrecursionlimit(20000)
 
 
 def mods():
